@@ -33,6 +33,13 @@ Proof.
 Qed.
 Lemma map_tl {A B} (f : A -> B) l : map f (tl l) = tl (map f l).
 Proof. destruct l; reflexivity. Qed.
+Lemma filter_map_to_q m l :
+  map to_q (filter (fun x => negb (Nat.eqb (ae_model x) m)) l) =
+  filter (fun x => negb (Nat.eqb (q_model x) m)) (map to_q l).
+Proof.
+  induction l as [|x r IH]; [reflexivity|]. cbn [filter map]. cbn [to_q q_model].
+  destruct (negb (Nat.eqb (ae_model x) m)); cbn [map]; rewrite IH; reflexivity.
+Qed.
 
 Lemma md_not_off {T} (md : qmode) (A B : T) :
   md <> QOff -> match md with QOff => A | QAll => B | QPerModel => B end = B.
@@ -63,18 +70,18 @@ Section Refine.
   (* a trigger awaited from a callback goes to the deque that is being drained: always so with
      queued=True (one shared deque); with queued='model' iff callbacks trigger their own model *)
   Definition targets (a : action) : Prop :=
-    match a with ATrigger m _ => qkey md m = key | ARemoveModel _ => True end.
+    match a with ATrigger m _ => qkey md m = key | ARemoveModel _ => md = QAll /\ key = 0 end.
   Definition targets_ok : Prop := forall sts q, Forall targets (snd (fst (fst (qstep sts q)))).
 
-  (* abstraction relation: the deque [key] is the abstract queue, same arrival counter; no model is
-     ever removed in this model (ARemoveModel is not performed), so the abstract model list is empty *)
+  (* abstraction relation: the deque [key] is the abstract queue, same arrival counter, same registered
+     models (remove_model is performed with queued=True only: [targets]) *)
   Definition R (w : aworld) (s : qstate) : Prop :=
-    qs_queue s = map to_q (qget (aw_queues w) key) /\ qs_next s = aw_next w /\ qs_models s = [].
+    qs_queue s = map to_q (qget (aw_queues w) key) /\ qs_next s = aw_next w /\ qs_models s = aw_models w.
 
   Lemma astep_qstep w h :
     let '(tr, r, w1) := astep w h in
     qstep (aw_states w) (to_q h) = ((tr, r), acts_of_trace tr, exn_of r, aw_states w1) /\
-    aw_queues w1 = aw_queues w /\ aw_next w1 = aw_next w.
+    aw_queues w1 = aw_queues w /\ aw_next w1 = aw_next w /\ aw_models w1 = aw_models w.
   Proof.
     unfold Async.astep, qstep, mstate_of. cbn [to_q q_model q_payload q_event].
     destruct (atrigger mc _ _ _ _ _) as [[tr st'] r]. cbn. auto.
@@ -92,16 +99,31 @@ Section Refine.
       + cbn in Ha. rewrite Ha.
         set (w1 := mkAW (aw_states w)
                         (qset (aw_queues w) key (qget (aw_queues w) key ++ [mkAE (aw_next w) m e (nested_payload cur k)]))
-                        (S (aw_next w))).
+                        (S (aw_next w)) (aw_models w)).
         assert (R1 : R w1 (apply_action qpayload (to_q cur) k (ATrigger m e) s)).
         { destruct HR as (Q&N&M). unfold R. cbn [apply_action qs_queue qs_next qs_models w1 aw_queues aw_next].
           rewrite qget_qset_same, map_app, Q, N. cbn [map to_q ae_id ae_model ae_event ae_payload].
           unfold qpayload, nested_payload. cbn [to_q q_id]. auto. }
         destruct (IH cur (S k) w1 _ R1 Hr) as (A&B&C). split; [exact A|]. split; [rewrite B; reflexivity|].
         intros k' N. rewrite (C k' N). unfold w1. cbn [aw_queues]. apply qget_qset_other. exact N.
-      + assert (R1 : R w (apply_action qpayload (to_q cur) k (ARemoveModel m) s)).
-        { destruct HR as (Q&N&M). cbn [apply_action]. rewrite M. cbn. unfold R. auto. }
-        apply (IH cur (S k) w _ R1 Hr).
+      + cbn in Ha. destruct Ha as [Hmd Hk].
+        assert (R1 : R (aremove_model md m w) (apply_action qpayload (to_q cur) k (ARemoveModel m) s) /\
+                     aw_states (aremove_model md m w) = aw_states w /\
+                     (forall k', k' <> key -> qget (aw_queues (aremove_model md m w)) k' = qget (aw_queues w) k')).
+        { destruct HR as (Q&N&M). unfold aremove_model. rewrite Hmd. cbn [apply_action]. rewrite M.
+          destruct (negb (existsb (Nat.eqb m) (aw_models w))); [unfold R; auto|].
+          rewrite Q. unfold R. rewrite !Hk.
+          destruct (qget (aw_queues w) 0) as [|h tl] eqn:G; cbn [map].
+          - split; [|split; [reflexivity|]].
+            + cbn. rewrite qget_qset_same. unfold remove_model_list. auto.
+            + intros k' Nk. cbn. apply qget_qset_other. exact Nk.
+          - split; [|split; [reflexivity|]].
+            + cbn. rewrite qget_qset_same. cbn [map]. unfold remove_model_list.
+              rewrite filter_map_to_q. auto.
+            + intros k' Nk. cbn. apply qget_qset_other. exact Nk. }
+        destruct R1 as (R1&S1&O1).
+        destruct (IH cur (S k) _ _ R1 Hr) as (A&B&C). split; [exact A|]. split; [rewrite B; exact S1|].
+        intros k' Nk. rewrite (C k' Nk). apply O1. exact Nk.
   Qed.
 
   Hypothesis TOK : targets_ok.
@@ -122,14 +144,14 @@ Section Refine.
     destruct (qget (aw_queues w) key) as [|h tl0] eqn:G; rewrite Q; cbn [map].
     - exists s. split; [reflexivity|]. split; [unfold R; rewrite G; auto|auto].
     - pose proof (astep_qstep w h) as S1. pose proof (TOK (aw_states w) (to_q h)) as T1.
-      destruct (astep w h) as [[tr r] w1]. destruct S1 as (S1&S2&S3). rewrite S1 in T1 |- *. cbn [fst snd] in T1.
-      assert (R1 : R w1 s) by (unfold R; rewrite S2, S3, G; auto).
+      destruct (astep w h) as [[tr r] w1]. destruct S1 as (S1&S2&S3&S4). rewrite S1 in T1 |- *. cbn [fst snd] in T1.
+      assert (R1 : R w1 s) by (unfold R; rewrite S2, S3, S4, G; auto).
       destruct (enqueue_refines (acts_of_trace tr) h 0 w1 s R1 T1) as (R2&St&Oth).
       set (w2 := enqueue_acts h 0 (acts_of_trace tr) w1) in *.
       set (s1 := apply_actions qpayload (to_q h) 0 (acts_of_trace tr) s) in *.
       destruct R2 as (Q2&N2&M2).
       destruct r as [b|e]; cbn [exn_of].
-      + set (w3 := mkAW (aw_states w2) (qset (aw_queues w2) key (tl (qget (aw_queues w2) key))) (aw_next w2)).
+      + set (w3 := mkAW (aw_states w2) (qset (aw_queues w2) key (tl (qget (aw_queues w2) key))) (aw_next w2) (aw_models w2)).
         set (s2 := mkQS (tl (qs_queue s1)) (qs_models s1) (qs_next s1) (qs_dropped s1)).
         assert (R3 : R w3 s2).
         { unfold R, w3, s2. cbn. rewrite qget_qset_same, Q2, map_tl. auto. }
@@ -150,7 +172,7 @@ Section Refine.
   Lemma abids_bids bs : bids (map to_block bs) = abids bs.
   Proof. unfold bids, abids. rewrite map_map. reflexivity. Qed.
 
-  Definition abs_state (w : aworld) : qstate := mkQS (map to_q (qget (aw_queues w) key)) [] (aw_next w) [].
+  Definition abs_state (w : aworld) : qstate := mkQS (map to_q (qget (aw_queues w) key)) (aw_models w) (aw_next w) [].
   Lemma R_abs w : R w (abs_state w).
   Proof. unfold R, abs_state. cbn. auto. Qed.
 
@@ -203,8 +225,8 @@ Section Refine.
     end.
   Proof.
     intros L NQ K G. unfold atop_trigger, top_trigger. rewrite L, (md_not_off md _ _ NQ).
-    rewrite K; cbn [aw_queues aw_states aw_next]; rewrite G; cbn [app].
-    set (w1 := mkAW (aw_states w) (qset (aw_queues w) key [mkAE (aw_next w) m e a]) (S (aw_next w))).
+    rewrite K; cbn [aw_queues aw_states aw_next aw_models]; rewrite G; cbn [app].
+    set (w1 := mkAW (aw_states w) (qset (aw_queues w) key [mkAE (aw_next w) m e a]) (S (aw_next w)) (aw_models w)).
     set (s1 := mkQS _ _ _ _).
     assert (R1 : R w1 s1) by (unfold R, w1, s1, abs_state; cbn; rewrite qget_qset_same, G; cbn; auto).
     pose proof (adrain_refines fuel w1 s1 R1) as H; change (aw_states w1) with (aw_states w) in H.
@@ -243,9 +265,9 @@ Lemma atop_busy mc ev suspf md fuel w m e a ts h tl :
   qget (aw_queues w) (qkey md m) = h :: tl ->
   atop_trigger mc ev suspf md fuel w m e a =
     Some ([], AwRet true,
-          mkAW (aw_states w) (qset (aw_queues w) (qkey md m) (h :: tl ++ [mkAE (aw_next w) m e a])) (S (aw_next w))).
+          mkAW (aw_states w) (qset (aw_queues w) (qkey md m) (h :: tl ++ [mkAE (aw_next w) m e a])) (S (aw_next w)) (aw_models w)).
 Proof.
-  intros L NQ G. unfold atop_trigger. rewrite L, (md_not_off md _ _ NQ). cbn [aw_queues aw_states aw_next]. rewrite G. reflexivity.
+  intros L NQ G. unfold atop_trigger. rewrite L, (md_not_off md _ _ NQ). cbn [aw_queues aw_states aw_next aw_models]. rewrite G. reflexivity.
 Qed.
 
 (* non-vacuity: one callback of the first event awaits two triggers; they are processed after it, in order *)
@@ -256,9 +278,32 @@ Definition mc_q : machine :=
 Definition ev_q : env := fun cb p => mkReply true None (if Nat.eqb cb 1 && Nat.eqb p 100 then [ATrigger 0 0; ATrigger 0 0] else []).
 
 Lemma queue_example :
-  match atop_trigger mc_q ev_q (fun _ _ => 1) QPerModel 10 (mkAW [(0, 0)] [] 0) 0 0 100 with
+  match atop_trigger mc_q ev_q (fun _ _ => 1) QPerModel 10 (mkAW [(0, 0)] [] 0 [0]) 0 0 100 with
   | Some (bs, r, w') => abids bs = [0; 1; 2] /\ map (fun b => ae_payload (ab_entry b)) bs = [100; 1000; 1001] /\
                         r = AwRet true /\ aw_states w' = [(0, 1)] /\ aw_next w' = 3
   | None => False
   end.
 Proof. vm_compute. auto 10. Qed.
+
+(* remove_model(m) from a callback, queued=True: the event in progress stays at the head, exactly the pending
+   events of m disappear (in order), every other pending event stays, the arrival counter and the other deques
+   are untouched, m is unregistered; an unregistered m: nothing happens *)
+Lemma aremove_exact m w h tl :
+  qget (aw_queues w) 0 = h :: tl -> existsb (Nat.eqb m) (aw_models w) = true ->
+  let w' := aremove_model QAll m w in
+  qget (aw_queues w') 0 = h :: filter (fun x => negb (Nat.eqb (ae_model x) m)) tl /\
+  (forall x, In x (qget (aw_queues w') 0) <-> x = h \/ (In x tl /\ ae_model x <> m)) /\
+  aw_next w' = aw_next w /\ aw_states w' = aw_states w /\
+  aw_models w' = filter (fun x => negb (Nat.eqb x m)) (aw_models w).
+Proof.
+  intros G M. unfold aremove_model. rewrite M, G. cbn. rewrite qget_qset_same.
+  split; [reflexivity|]. split; [|auto].
+  intros x. cbn [In]. rewrite filter_In. split.
+  - intros [->|[H1 H2]]; [now left|]. right. split; [exact H1|].
+    apply negb_true_iff, Nat.eqb_neq in H2. exact H2.
+  - intros [->|[H1 H2]]; [now left|]. right. split; [exact H1|].
+    apply negb_true_iff, Nat.eqb_neq. exact H2.
+Qed.
+Lemma aremove_unregistered m w :
+  existsb (Nat.eqb m) (aw_models w) = false -> aremove_model QAll m w = w.
+Proof. intros M. unfold aremove_model. rewrite M. reflexivity. Qed.
